@@ -42,9 +42,17 @@ def one(args):
     cwd = os.getcwd()
     try:
         # names that contain each other, and a sub-directory (include paths are relative to the working directory)
+        # ... and names spelled with ./ and ../ , a dot-file, an absolute path: the file NAMED is the file included (decoys with the stripped names
+        # hold different text).  The working directory is W/work so that ../ stays inside the scratch directory.
+        base = os.path.join(W, "work")
+        os.makedirs(os.path.join(base, "sub"), exist_ok=True)
         names = ["data.asm", "a.asm", "ta.asm", "sub/defs.asm", "defs.asm", "x1.asm", "1.asm", "inc.asm", "c.asm", "sub/a.asm"]
+        if k % 2:
+            names += ["./local.asm", "../up.asm", ".hidden.asm", "./sub/b.asm", "../work/w.asm", os.path.join(W, "abs.asm"), "sub/../t.asm"]
+            for decoy in ("up.asm", "hidden.asm", "work/w.asm", "abs.asm"):
+                os.makedirs(os.path.dirname(os.path.join(base, decoy)), exist_ok=True)
+                open(os.path.join(base, decoy), "w").write(" FCB 99\nDECOY FCB 98\n")
         rnd.shuffle(names)
-        os.makedirs(os.path.join(W, "sub"), exist_ok=True)
         t = {"id": k, "D": 0, "absref": [], "moved": [], "labels": [], "ren": []}
         if mode == "tree":
             main, files = split_tree(rnd, lines, 3, names)
@@ -66,15 +74,15 @@ def one(args):
             main = lines[:1] + [" INCLUDE %s\n" % cyc[0]] + lines[1:]
             t["kind"] = "include-reject"
         for fn, ls in files.items():
-            open(os.path.join(W, fn), "w").write("".join(ls))
-        os.chdir(W)
+            open(os.path.normpath(os.path.join(base, fn)), "w").write("".join(ls))
+        os.chdir(base)
         a = asmio.assemble(list(main))
         b = asmio.assemble(list(lines))
         t["a"], t["b"] = c18.out_of(a), c18.out_of(b)
         t["linesA"], t["linesB"], t["files"], t["mode"], t["exc"] = main, lines, files, mode, a["exc"]
         if k % 25 == 0:           # the same through the command line tool, as the property's observation point says
             import assembler
-            open(os.path.join(W, "main.asm"), "w").write("".join(main))
+            open(os.path.join(base, "main.asm"), "w").write("".join(main))
             code, out = hostrun.run_main(assembler, ["main.asm", "--to_bin", "m.bin"])
             t["cli"] = {"exit": code, "tb": "TRACEBACK" in out, "bin": list(open("m.bin", "rb").read()) if os.path.exists("m.bin") else None}
         return t
